@@ -107,12 +107,13 @@ theorem set_stream_abs (h : Hub) (ch : String) (c : ChanState) :
 
 /-! ### `getLocked` refines `Abs.read` -/
 
-/-- the uint64 wrap-arounds of `getLocked` are harmless on this domain: forward reads since any
-offset but 2^64−1; reverse reads since a position up to `top + 1` (and tops below 2^64−1) -/
+/-- the domain on which `getLocked` is the specification's read: offsets are `uint64` values
+(`since.offset < 2^64`, `top + 1 < 2^64`); forward reads: every `since`; reverse reads: `since`
+a position up to `top + 1` (beyond that the code returns nothing — recorded quirk) -/
 def FilterOK (top : Nat) (f : Filter) : Prop :=
   match f.since with
   | none => True
-  | some p => if f.reverse then p.offset ≤ top + 1 ∧ top + 1 < u64 else p.offset + 1 < u64
+  | some p => if f.reverse then p.offset ≤ top + 1 ∧ top + 1 < u64 else p.offset < u64 ∧ top + 1 < u64
 
 theorem getCore_abs (g : Hub) (ch : String) (f : Filter) :
     (g.getCore ch f).1.abs = (g.abs.ensure ch).1 ∧ (g.getCore ch f).2.2 = (g.abs.ensure ch).2.pos := by
@@ -139,7 +140,7 @@ theorem getCore_abs (g : Hub) (ch : String) (f : Filter) :
     simp only
     cases f.since with
     | none => simp only; split <;> exact ⟨rfl, rfl⟩
-    | some p => simp only; split <;> exact ⟨rfl, rfl⟩
+    | some p => simp only; split <;> (try split) <;> exact ⟨rfl, rfl⟩
 
 /-- state part: `getLocked` only creates a missing channel (fresh epoch, top 0) -/
 theorem get_abs (h : Hub) (ch : String) (f : Filter) (m n : Nat) :
@@ -171,20 +172,29 @@ theorem getCore_pubs (g : Hub) (ch : String) (f : Filter) (s : MStream Pub)
     cases hrev : f.reverse with
     | false =>
       simp only [hrev, Bool.false_eq_true, if_false] at hf ⊢
-      have hmod : (p.offset + 1) % u64 = p.offset + 1 := Nat.mod_eq_of_lt hf
+      have hnone : ∀ (hgt : s.top ≤ p.offset),
+          s.items.filter (fun it => decide (p.offset < it.offset)) = [] := by
+        intro hgt
+        rw [List.filter_eq_nil_iff]
+        intro it hit
+        have := contig_mem hi.1 hit
+        simp; omega
       split
       · rename_i hc
         simp only [Bool.not_false, Bool.true_and, Bool.and_eq_true, decide_eq_true_eq] at hc
         -- top = since.offset: nothing is newer
-        have : s.items.filter (fun it => decide (p.offset < it.offset)) = [] := by
-          rw [List.filter_eq_nil_iff]
-          intro it hit
-          have := contig_mem hi.1 hit
-          simp; omega
-        simp [this, takeLim_nil]
-      · rw [hmod, get_spec s hi]
-        simp only [MStream.getSpec]
-        rfl
+        rw [hnone (by omega)]; simp [takeLim_nil]
+      · split
+        · rename_i hmax
+          simp only [Bool.not_false, Bool.true_and, decide_eq_true_eq] at hmax
+          -- since = 2^64−1: nothing is newer (tops are uint64 values)
+          rw [hnone (by omega)]; simp [takeLim_nil]
+        · rename_i hmax
+          simp only [Bool.not_false, Bool.true_and, decide_eq_true_eq] at hmax
+          have hmod : (p.offset + 1) % u64 = p.offset + 1 := Nat.mod_eq_of_lt (by omega)
+          rw [hmod, get_spec s hi]
+          simp only [MStream.getSpec]
+          rfl
     | true =>
       simp only [hrev, if_true] at hf ⊢
       simp only [Bool.not_true, Bool.false_and, Bool.false_eq_true, if_false]
@@ -400,7 +410,7 @@ theorem get_stream_some (h : Hub) (ch : String) (f : Filter) (m n : Nat) (s : MS
   simp only [touchMeta_stream, hst]
   cases f.since with
   | none => simp only; split <;> rfl
-  | some p => simp only; split <;> rfl
+  | some p => simp only; split <;> (try split) <;> rfl
 
 theorem get_stream_none (h : Hub) (ch : String) (f : Filter) (m n : Nat)
     (hst : (h.chans ch).stream = none) :
@@ -408,12 +418,43 @@ theorem get_stream_none (h : Hub) (ch : String) (f : Filter) (m n : Nat)
   unfold Hub.get Hub.getCore
   simp [touchMeta_stream, hst]
 
-/-- the hub right before the version check of `add` -/
+/-- the hub right before `stream.Add` (after delta read and deadline refreshes) -/
 def Hub.preAdd (h : Hub) (ch : String) (o : PubOpts) (n : Nat) : Hub :=
   (((h.deltaRead ch o n).1.touchExpire ch o.ttl n).touchMeta ch o.metaTTL n)
 
-theorem add_eq (h : Hub) (ch : String) (pub : Pub) (o : PubOpts) (n : Nat) :
-    h.add ch pub o n = (h.preAdd ch o n).addCore ch pub o (h.deltaRead ch o n).2 := rfl
+theorem versionSkip_some (g : Hub) (ch : String) (o : PubOpts) (s : MStream Pub)
+    (hst : (g.chans ch).stream = some s) (hv : VersionSkip o s) :
+    g.versionSkip ch o = some ⟨s.top, s.epoch⟩ := by
+  unfold Hub.versionSkip
+  simp only [hst]
+  have hv' := hv
+  unfold VersionSkip at hv'
+  rw [if_pos hv']
+
+theorem versionSkip_none_of_not (g : Hub) (ch : String) (o : PubOpts) (s : MStream Pub)
+    (hst : (g.chans ch).stream = some s) (hv : ¬ VersionSkip o s) : g.versionSkip ch o = none := by
+  unfold Hub.versionSkip
+  simp only [hst]
+  have hv' := hv
+  unfold VersionSkip at hv'
+  rw [if_neg hv']
+
+theorem versionSkip_none_of_nostream (g : Hub) (ch : String) (o : PubOpts)
+    (hst : (g.chans ch).stream = none) : g.versionSkip ch o = none := by
+  unfold Hub.versionSkip
+  simp only [hst]
+
+theorem add_skip_eq (h : Hub) (ch : String) (pub : Pub) (o : PubOpts) (n : Nat) (p : Pos)
+    (hv : (h.deltaRead ch o n).1.versionSkip ch o = some p) :
+    h.add ch pub o n = ((h.deltaRead ch o n).1, ⟨p, none, true⟩) := by
+  unfold Hub.add
+  simp only [hv]
+
+theorem add_store_eq (h : Hub) (ch : String) (pub : Pub) (o : PubOpts) (n : Nat)
+    (hv : (h.deltaRead ch o n).1.versionSkip ch o = none) :
+    h.add ch pub o n = (h.preAdd ch o n).addCore ch pub o (h.deltaRead ch o n).2 := by
+  unfold Hub.add Hub.preAdd
+  simp only [hv]
 
 theorem deltaRead_abs (h : Hub) (ch : String) (o : PubOpts) (n : Nat) :
     (h.deltaRead ch o n).1.abs = if o.useDelta then (h.abs.ensure ch).1 else h.abs := by
@@ -422,84 +463,181 @@ theorem deltaRead_abs (h : Hub) (ch : String) (o : PubOpts) (n : Nat) :
   · exact (get_abs h ch _ _ _).1
   · rfl
 
-theorem preAdd_abs (h : Hub) (ch : String) (o : PubOpts) (n : Nat) :
-    (h.preAdd ch o n).abs = if o.useDelta then (h.abs.ensure ch).1 else h.abs := by
-  unfold Hub.preAdd
-  rw [touchMeta_abs, touchExpire_abs, deltaRead_abs]
-
-theorem preAdd_stream_some (h : Hub) (ch : String) (o : PubOpts) (n : Nat) (s : MStream Pub)
-    (hst : (h.chans ch).stream = some s) : ((h.preAdd ch o n).chans ch).stream = some s := by
-  unfold Hub.preAdd
-  rw [touchMeta_stream, touchExpire_stream]
+theorem deltaRead_stream_some (h : Hub) (ch : String) (o : PubOpts) (n : Nat) (s : MStream Pub)
+    (hst : (h.chans ch).stream = some s) :
+    (h.deltaRead ch o n).1 = (if o.useDelta then h.touchMeta ch o.metaTTL n else h) ∧
+      ∀ x, (((h.deltaRead ch o n).1).chans x).stream = (h.chans x).stream := by
   unfold Hub.deltaRead
   split
-  · simp only [get_stream_some h ch _ _ _ s hst, touchMeta_stream, hst]
-  · exact hst
+  · simp only [get_stream_some h ch _ _ _ s hst]
+    exact ⟨trivial, fun x => touchMeta_stream _ _ _ _ _⟩
+  · exact ⟨rfl, fun _ => rfl⟩
 
-theorem preAdd_stream_none (h : Hub) (ch : String) (o : PubOpts) (n : Nat)
+theorem deltaRead_stream_none (h : Hub) (ch : String) (o : PubOpts) (n : Nat)
     (hst : (h.chans ch).stream = none) :
-    ((h.preAdd ch o n).chans ch).stream =
+    (((h.deltaRead ch o n).1).chans ch).stream =
       if o.useDelta then some (MStream.new h.nextEpoch) else none := by
-  unfold Hub.preAdd
-  rw [touchMeta_stream, touchExpire_stream]
   unfold Hub.deltaRead
   split
   · exact get_stream_none h ch _ _ _ hst
   · exact hst
 
+theorem preAdd_abs (h : Hub) (ch : String) (o : PubOpts) (n : Nat) :
+    (h.preAdd ch o n).abs = if o.useDelta then (h.abs.ensure ch).1 else h.abs := by
+  unfold Hub.preAdd
+  rw [touchMeta_abs, touchExpire_abs, deltaRead_abs]
+
+theorem preAdd_stream (h : Hub) (ch : String) (o : PubOpts) (n : Nat) (x : String) :
+    ((h.preAdd ch o n).chans x).stream = (((h.deltaRead ch o n).1).chans x).stream := by
+  unfold Hub.preAdd
+  rw [touchMeta_stream, touchExpire_stream]
+
+theorem preAdd_stream_some (h : Hub) (ch : String) (o : PubOpts) (n : Nat) (s : MStream Pub)
+    (hst : (h.chans ch).stream = some s) : ((h.preAdd ch o n).chans ch).stream = some s := by
+  rw [preAdd_stream, (deltaRead_stream_some h ch o n s hst).2, hst]
+
+theorem preAdd_stream_none (h : Hub) (ch : String) (o : PubOpts) (n : Nat)
+    (hst : (h.chans ch).stream = none) :
+    ((h.preAdd ch o n).chans ch).stream =
+      if o.useDelta then some (MStream.new h.nextEpoch) else none := by
+  rw [preAdd_stream, deltaRead_stream_none h ch o n hst]
+
+theorem new_not_versionSkip (o : PubOpts) (e : Nat) : ¬ VersionSkip o (MStream.new e) := by
+  unfold VersionSkip MStream.new; simp; omega
+
+/-- the three ways `add` can go, with the hub it starts the tail from -/
+inductive AddCase (h : Hub) (ch : String) (pub : Pub) (o : PubOpts) (n : Nat) : Prop
+  | skip (s : MStream Pub) (hst : (h.chans ch).stream = some s) (hv : VersionSkip o s)
+      (he : h.add ch pub o n = ((h.deltaRead ch o n).1, ⟨⟨s.top, s.epoch⟩, none, true⟩))
+  | store (s : MStream Pub) (hst : (h.chans ch).stream = some s) (hv : ¬ VersionSkip o s)
+      (he : h.add ch pub o n =
+        ((h.preAdd ch o n).set ch { (h.preAdd ch o n).chans ch with
+            stream := some (s.add pub o.size o.version o.versionEpoch).1 },
+          ⟨⟨s.top + 1, s.epoch⟩, (h.deltaRead ch o n).2, false⟩))
+      (hc : h.add ch pub o n = (h.preAdd ch o n).addCore ch pub o (h.deltaRead ch o n).2)
+  | create (hst : (h.chans ch).stream = none)
+      (he : (h.add ch pub o n).2 = ⟨⟨1, h.nextEpoch⟩, (h.deltaRead ch o n).2, false⟩)
+      (hc : h.add ch pub o n = (h.preAdd ch o n).addCore ch pub o (h.deltaRead ch o n).2)
+
+theorem add_cases (h : Hub) (ch : String) (pub : Pub) (o : PubOpts) (n : Nat) : AddCase h ch pub o n := by
+  cases hst : (h.chans ch).stream with
+  | some s =>
+    have hd := (deltaRead_stream_some h ch o n s hst).2 ch
+    rw [hst] at hd
+    have hp := preAdd_stream_some h ch o n s hst
+    by_cases hv : VersionSkip o s
+    · exact .skip s hst hv (add_skip_eq h ch pub o n _ (versionSkip_some _ ch o s hd hv))
+    · have hc := add_store_eq h ch pub o n (versionSkip_none_of_not _ ch o s hd hv)
+      exact .store s hst hv (by rw [hc, addCore_store _ ch pub o _ s hp hv]) hc
+  | none =>
+    have hd := deltaRead_stream_none h ch o n hst
+    have hp := preAdd_stream_none h ch o n hst
+    by_cases hdl : o.useDelta
+    · simp only [hdl, if_true] at hd hp
+      have hc := add_store_eq h ch pub o n
+        (versionSkip_none_of_not _ ch o _ hd (new_not_versionSkip o _))
+      refine .create hst ?_ hc
+      rw [hc, addCore_store _ ch pub o _ _ hp (new_not_versionSkip o _)]
+      rfl
+    · simp only [hdl, Bool.false_eq_true, if_false] at hd hp
+      have hc := add_store_eq h ch pub o n (versionSkip_none_of_nostream _ ch o hd)
+      refine .create hst ?_ hc
+      rw [hc, addCore_new _ ch pub o _ hp]
+      have : (h.preAdd ch o n).nextEpoch = h.nextEpoch := by
+        unfold Hub.preAdd Hub.deltaRead; simp [hdl]
+      simp [this]
+
 /-- **version_suppressed_iff** (hub level): `add` skips exactly when the channel has a stream whose
 version pair passes the check (no stream ⇒ never; an unversioned publish ⇒ never) -/
 theorem add_skip_iff (h : Hub) (ch : String) (pub : Pub) (o : PubOpts) (n : Nat) :
     (h.add ch pub o n).2.skip = true ↔ ∃ s, (h.chans ch).stream = some s ∧ VersionSkip o s := by
-  rw [add_eq]
-  cases hst : (h.chans ch).stream with
-  | some s =>
-    have hp := preAdd_stream_some h ch o n s hst
-    by_cases hv : VersionSkip o s
-    · rw [addCore_skip _ ch pub o _ s hp hv]; simp [hv]
-    · rw [addCore_store _ ch pub o _ s hp hv]; simp [hv]
-  | none =>
-    have hp := preAdd_stream_none h ch o n hst
-    by_cases hd : o.useDelta
-    · simp only [hd, if_true] at hp
-      have hv : ¬ VersionSkip o (MStream.new h.nextEpoch) := by
-        unfold VersionSkip MStream.new; simp; omega
-      rw [addCore_store _ ch pub o _ _ hp hv]; simp
-    · simp only [hd, Bool.false_eq_true, if_false] at hp
-      rw [addCore_new _ ch pub o _ hp]; simp
+  rcases add_cases h ch pub o n with ⟨s, hst, hv, he⟩ | ⟨s, hst, hv, he, _⟩ | ⟨hst, he, _⟩
+  · rw [he]; simp only [true_iff]; exact ⟨s, hst, hv⟩
+  · rw [he]; simp only [Bool.false_eq_true, false_iff]
+    rintro ⟨t, ht, hvt⟩; rw [hst] at ht; cases ht; exact hv hvt
+  · rw [he]; simp only [Bool.false_eq_true, false_iff]
+    rintro ⟨t, ht, _⟩; rw [hst] at ht; cases ht
 
-/-- a skipped `add` returns the current top position and leaves every stream as it was -/
+/-- a skipped `add` returns the current top position, leaves every stream as it was, and leaves
+the hub in the state right after the optional delta read — i.e. **completely unchanged** unless
+`UseDelta` is set, in which case only the channel's meta deadline was refreshed by that read -/
 theorem add_skip_spec (h : Hub) (ch : String) (pub : Pub) (o : PubOpts) (n : Nat)
     (hs : (h.add ch pub o n).2.skip = true) :
-    (h.add ch pub o n).1.abs = h.abs ∧ (h.add ch pub o n).2.prev = none ∧
+    (h.add ch pub o n).1 = (if o.useDelta then h.touchMeta ch o.metaTTL n else h) ∧
+      (h.add ch pub o n).1.abs = h.abs ∧ (h.add ch pub o n).2.prev = none ∧
       (∀ x, ((h.add ch pub o n).1.chans x).stream = (h.chans x).stream) ∧
       ∃ s, (h.chans ch).stream = some s ∧ (h.add ch pub o n).2.pos = ⟨s.top, s.epoch⟩ := by
-  obtain ⟨s, hst, hv⟩ := (add_skip_iff h ch pub o n).mp hs
-  have hp := preAdd_stream_some h ch o n s hst
-  rw [add_eq, addCore_skip _ ch pub o _ s hp hv]
-  have hc : h.abs.chans ch = some (absS s) := by simp [Hub.abs, hst]
-  have he : h.abs.ensure ch = (h.abs, absS s) := by unfold Abs.ensure; simp [hc]
-  refine ⟨?_, rfl, ?_, s, hst, rfl⟩
-  · rw [preAdd_abs, he]; split <;> rfl
-  · intro x
-    unfold Hub.preAdd
-    rw [touchMeta_stream, touchExpire_stream]
-    unfold Hub.deltaRead
-    split
-    · simp only [get_stream_some h ch _ _ _ s hst, touchMeta_stream]
+  rcases add_cases h ch pub o n with ⟨s, hst, hv, he⟩ | ⟨s, hst, hv, he, _⟩ | ⟨hst, he, _⟩
+  · obtain ⟨h1, h2⟩ := deltaRead_stream_some h ch o n s hst
+    rw [he]
+    refine ⟨h1, ?_, rfl, h2, s, hst, rfl⟩
+    simp only
+    rw [h1]; split
+    · exact touchMeta_abs _ _ _ _
     · rfl
+  · rw [he] at hs; cases hs
+  · rw [he] at hs; cases hs
 
 /-- a stored `add` is the specification's `append` -/
 theorem add_store_spec (h : Hub) (ch : String) (pub : Pub) (o : PubOpts) (n : Nat)
     (hs : (h.add ch pub o n).2.skip = false) :
     (h.add ch pub o n).1.abs = (h.abs.append ch pub o.size).1 ∧
       (h.add ch pub o n).2.pos = (h.abs.append ch pub o.size).2 := by
-  rw [add_eq] at hs ⊢
+  have key : h.add ch pub o n = (h.preAdd ch o n).addCore ch pub o (h.deltaRead ch o n).2 := by
+    rcases add_cases h ch pub o n with ⟨s, hst, hv, he⟩ | ⟨s, hst, hv, he, hc⟩ | ⟨hst, he, hc⟩
+    · rw [he] at hs; cases hs
+    · exact hc
+    · exact hc
+  rw [key] at hs ⊢
   obtain ⟨h1, h2, _⟩ := addCore_abs _ ch pub o _ hs
   rw [h1, h2, preAdd_abs]
   split
   · rw [append_ensure]; exact ⟨rfl, rfl⟩
   · exact ⟨rfl, rfl⟩
+
+/-! ### streams of other channels are never touched -/
+
+theorem getCore_stream_other (g : Hub) (ch : String) (f : Filter) (x : String) (hx : x ≠ ch) :
+    (((g.getCore ch f).1).chans x).stream = (g.chans x).stream := by
+  unfold Hub.getCore
+  simp only
+  cases hst : (g.chans ch).stream with
+  | none => simp [set_chans_other _ _ _ _ hx]
+  | some s =>
+    simp only
+    cases f.since with
+    | none => simp only; split <;> rfl
+    | some p => simp only; split <;> (try split) <;> rfl
+
+theorem get_stream_other (h : Hub) (ch : String) (f : Filter) (m n : Nat) (x : String) (hx : x ≠ ch) :
+    (((h.get ch f m n).1).chans x).stream = (h.chans x).stream := by
+  unfold Hub.get
+  rw [getCore_stream_other _ ch f x hx, touchMeta_stream]
+
+theorem addCore_stream_other (g : Hub) (ch : String) (pub : Pub) (o : PubOpts) (prev : Option (Item Pub))
+    (x : String) (hx : x ≠ ch) : (((g.addCore ch pub o prev).1).chans x).stream = (g.chans x).stream := by
+  cases hst : (g.chans ch).stream with
+  | some s =>
+    by_cases hv : VersionSkip o s
+    · rw [addCore_skip g ch pub o prev s hst hv]
+    · rw [addCore_store g ch pub o prev s hst hv]; simp [set_chans_other _ _ _ _ hx]
+  | none => rw [addCore_new g ch pub o prev hst]; simp [set_chans_other _ _ _ _ hx]
+
+theorem deltaRead_stream_other (h : Hub) (ch : String) (o : PubOpts) (n : Nat) (x : String) (hx : x ≠ ch) :
+    (((h.deltaRead ch o n).1).chans x).stream = (h.chans x).stream := by
+  unfold Hub.deltaRead
+  split
+  · exact get_stream_other h ch _ _ _ x hx
+  · rfl
+
+theorem add_stream_other (h : Hub) (ch : String) (pub : Pub) (o : PubOpts) (n : Nat) (x : String)
+    (hx : x ≠ ch) : (((h.add ch pub o n).1).chans x).stream = (h.chans x).stream := by
+  rcases add_cases h ch pub o n with ⟨s, hst, hv, he⟩ | ⟨s, hst, hv, he, hc⟩ | ⟨hst, he, hc⟩
+  · rw [he]; exact deltaRead_stream_other h ch o n x hx
+  · rw [hc, addCore_stream_other _ ch pub o _ x hx, preAdd_stream]
+    exact deltaRead_stream_other h ch o n x hx
+  · rw [hc, addCore_stream_other _ ch pub o _ x hx, preAdd_stream]
+    exact deltaRead_stream_other h ch o n x hx
 
 /-! ### invariant -/
 
@@ -539,7 +677,7 @@ theorem getCore_inv (g : Hub) (hi : g.Inv) (ch : String) (f : Filter) : (g.getCo
       intro r hr h'; rw [hr] at h'; exact hi.1 x s h'
     cases hsin : f.since with
     | none => simp only [hsin] at hs; split at hs <;> exact hi.1 x s hs
-    | some p => simp only [hsin] at hs; split at hs <;> exact hi.1 x s hs
+    | some p => simp only [hsin] at hs; split at hs <;> (try split at hs) <;> exact hi.1 x s hs
 
 theorem get_inv (h : Hub) (hi : h.Inv) (ch : String) (f : Filter) (m n : Nat) : (h.get ch f m n).1.Inv :=
   getCore_inv _ (touchMeta_inv h hi ch m n) ch f
@@ -568,17 +706,22 @@ theorem addCore_inv (g : Hub) (hi : g.Inv) (ch : String) (pub : Pub) (o : PubOpt
       exact (stream_add_inv _ (new_inv _) _ _ _ _).1
     · simp [set_chans_other _ _ _ _ hx] at ht; exact hi.1 x t ht
 
-theorem add_inv (h : Hub) (hi : h.Inv) (ch : String) (pub : Pub) (o : PubOpts) (n : Nat) :
-    (h.add ch pub o n).1.Inv := by
-  rw [add_eq]
-  apply addCore_inv
-  unfold Hub.preAdd
-  apply touchMeta_inv
-  apply touchExpire_inv
+theorem deltaRead_inv (h : Hub) (hi : h.Inv) (ch : String) (o : PubOpts) (n : Nat) :
+    (h.deltaRead ch o n).1.Inv := by
   unfold Hub.deltaRead
   split
   · exact get_inv h hi ch _ _ _
   · exact hi
+
+theorem add_inv (h : Hub) (hi : h.Inv) (ch : String) (pub : Pub) (o : PubOpts) (n : Nat) :
+    (h.add ch pub o n).1.Inv := by
+  have hpre : (h.preAdd ch o n).Inv := by
+    unfold Hub.preAdd
+    exact touchMeta_inv _ (touchExpire_inv _ (deltaRead_inv h hi ch o n) _ _ _) _ _ _
+  rcases add_cases h ch pub o n with ⟨s, hst, hv, he⟩ | ⟨s, hst, hv, he, hc⟩ | ⟨hst, he, hc⟩
+  · rw [he]; exact deltaRead_inv h hi ch o n
+  · rw [hc]; exact addCore_inv _ hpre _ _ _ _
+  · rw [hc]; exact addCore_inv _ hpre _ _ _ _
 
 theorem remove_inv (h : Hub) (hi : h.Inv) (ch : String) : (h.remove ch).Inv := by
   refine ⟨?_, by rw [remove_abs]; exact AbsStream.clear_inv _ hi.2 _⟩
